@@ -29,7 +29,7 @@ func asString(fr *frame, v value) string {
 	switch v := v.(type) {
 	case string:
 		return v
-	case *sym:
+	case *sym, bstr:
 		panic(unsupported("symbolic string where a concrete one is needed"))
 	}
 	panic(fmt.Sprintf("asString: %T", v))
@@ -123,7 +123,7 @@ func formatArg(fr *frame, v value) (interface{}, bool) {
 			return stringer(s.(string)), true
 		}
 		return formatArg(fr, x.v)
-	case *sym:
+	case *sym, bstr:
 		return nil, false
 	case bool, int, int8, int16, int32, int64, uint, uint8, uint16, uint32, uint64, uintptr, float32, float64, string:
 		return x, true
@@ -192,7 +192,12 @@ func sprintf(fr *frame, format value, args []value) value {
 		if it, ok := a.(iface); ok {
 			a = it.v
 		}
-		if s, ok := a.(*sym); ok {
+		if bs, ok := a.(bstr); ok {
+			if verb != 's' && verb != 'v' {
+				return fr.i.ex.fresh("fmt", sStr, 0)
+			}
+			acc = binop(token.ADD, strT, acc, bs)
+		} else if s, ok := a.(*sym); ok {
 			if s.k != sStr || (verb != 's' && verb != 'v') {
 				return fr.i.ex.fresh("fmt", sStr, 0)
 			}
@@ -611,11 +616,14 @@ func init() {
 		if s, ok := a[1].(string); ok {
 			return tuple{len(s), iface{}}
 		}
+		if s, ok := a[1].(bstr); ok {
+			return tuple{len(s), iface{}}
+		}
 		return tuple{0, iface{}}
 	})
 	reg("(*strings.Builder).WriteByte", func(fr *frame, a []value) value {
 		b := sb(fr, a[0])
-		*b = append(*b, string([]byte{a[1].(byte)}))
+		*b = append(*b, mkBstr([]value{a[1]}))
 		return iface{}
 	})
 	reg("(*strings.Builder).WriteRune", func(fr *frame, a []value) value {
@@ -626,20 +634,18 @@ func init() {
 	reg("(*strings.Builder).Write", func(fr *frame, a []value) value {
 		b := sb(fr, a[0])
 		bs := a[1].([]value)
-		raw := make([]byte, len(bs))
-		for i := range bs {
-			raw[i] = bs[i].(byte)
-		}
-		*b = append(*b, string(raw))
-		return tuple{len(raw), iface{}}
+		*b = append(*b, mkBstr(bs))
+		return tuple{len(bs), iface{}}
 	})
 	reg("(*strings.Builder).String", func(fr *frame, a []value) value { return sbString(*sb(fr, a[0])) })
 	reg("(*strings.Builder).Len", func(fr *frame, a []value) value {
-		s, ok := sbString(*sb(fr, a[0])).(string)
-		if !ok {
-			panic(unsupported("Builder.Len with symbolic content"))
+		switch s := sbString(*sb(fr, a[0])).(type) {
+		case string:
+			return len(s)
+		case bstr:
+			return len(s)
 		}
-		return len(s)
+		panic(unsupported("Builder.Len with symbolic content"))
 	})
 	reg("(*strings.Builder).Grow", func(fr *frame, a []value) value { return nil })
 	reg("(*strings.Builder).Reset", func(fr *frame, a []value) value { *sb(fr, a[0]) = nil; return nil })
